@@ -8,6 +8,7 @@ import (
 	"errors"
 	"fmt"
 	"io"
+	"math"
 	"reflect"
 	"slices"
 	"strings"
@@ -30,6 +31,11 @@ func (d *devmodOwnerModule) HandleInfo(ctx context.Context, messageName string, 
 		var numModules int
 		if err := cbor.NewDecoder(messageBody).Decode(&numModules); err != nil {
 			return err
+		}
+		// Each module name takes at least two bytes of service info, so a
+		// count that could never be filled is invalid
+		if numModules < 0 || numModules > math.MaxUint16 {
+			return fmt.Errorf("invalid devmod nummodules: %d", numModules)
 		}
 		d.Modules = make([]string, numModules)
 		return nil
